@@ -9309,6 +9309,10 @@ class SVG(Group):
 
                     s.render(ppi=ppi, width=width, height=height, viewbox=s.viewbox)
                     width, height = s.width, s.height
+                    if context is None:
+                        # x and y have no effect on the outermost svg element.
+                        s.x = 0
+                        s.y = 0
                     if s.viewbox is not None or s.height == 0 or s.width == 0:
                         try:
                             if s.height == 0 or s.width == 0:
